@@ -111,7 +111,7 @@ package pdnode_coord
 //@   modifies *
 //@ func getNodeNameList(currentNodes map[string]cluster.NodeInfo) []SortableStrings
 //@   opt autoloops
-//@   mapassert nodeNameMap (!in(cluster.DCInfoTag, ninfo.Tags) ==> key == "") && len(value) >= 1 && value[len(value)-1] == nid && (in(key, nodeNameMap) ==> len(value) == len(nodeNameMap[key]) + 1) && (!in(key, nodeNameMap) ==> len(value) == 1)
+//@   mapassert nodeNameMap (!in(cluster.DCInfoTag, ninfo.Tags) ==> mapkey == "") && len(mapval) >= 1 && mapval[len(mapval)-1] == nid && (in(mapkey, nodeNameMap) ==> len(mapval) == len(nodeNameMap[mapkey]) + 1) && (!in(mapkey, nodeNameMap) ==> len(mapval) == 1)
 //@   modifies *
 //@ loop 2
 //@   invariant ghost(mapupd, nodeNameMap) == nvisited()
